@@ -52,3 +52,42 @@ Print Assumptions C11_trailing_newline.
 Example C11_examples : unusable (KFile [] 420%N) /\ unusable (KFile (b64_encode (repeat 1%N 63)) 420%N) /\
                        unusable (KFile (list_ascii_of_string "not base64!") 420%N) /\ unusable KDir.
 Proof. repeat split; vm_compute; reflexivity. Qed.
+
+(* ---------- the whole command (Model/Job.v: main.go's Run end to end) ---------- *)
+From Coq Require Import String.
+From Model Require Import Tables Walker Line Stream Atlas Job.
+From Proofs Require Import JobProofs.
+
+(* an unusable key: the run ends with status 1 right after the key step - nothing on standard output, the output file
+   (created before the key step) holds nothing, the key path is exactly as it was *)
+Theorem C11_job_unusable_key : forall tb cs a w m fs1,
+  decide (flags_of a w) = CAccept m -> stage_out a w = Some fs1 ->
+  a_encrypt a = true -> nonempty_s (a_keyfile a) = true ->
+  unusable (kstate_of (fs1 (a_keyfile a))) ->
+  job tb cs a w = fail fs1 /\
+  (a_keyfile a <> a_out a -> j_fs (job tb cs a w) (a_keyfile a) = w_fs w (a_keyfile a)) /\
+  dest a (job tb cs a w) = [].
+Proof. exact job_key_unusable. Qed.
+Print Assumptions C11_job_unusable_key.
+
+(* no key file yet: base64 of the fresh bytes, mode 0600, is at the key path BEFORE the run proper starts, and the run
+   encrypts under exactly those bytes *)
+Theorem C11_job_key_created_first : forall tb cs a w m fs1,
+  decide (flags_of a w) = CAccept m -> stage_out a w = Some fs1 ->
+  a_encrypt a = true -> nonempty_s (a_keyfile a) = true ->
+  fs1 (a_keyfile a) = FAbsent true ->
+  stage_key a w fs1 = Some (upd fs1 (a_keyfile a) (FFile (b64_encode (w_rnd w)) mode_0600), Some (w_encrypt w (w_rnd w))) /\
+  job tb cs a w = stage_run tb cs a w m (upd fs1 (a_keyfile a) (FFile (b64_encode (w_rnd w)) mode_0600)) (Some (w_encrypt w (w_rnd w))).
+Proof. exact job_key_created. Qed.
+Print Assumptions C11_job_key_created_first.
+
+(* a valid key file is used and is, at the end of the run, byte for byte and mode for mode what it was *)
+Theorem C11_job_valid_key_untouched : forall tb cs a w m fs1 content mode key,
+  decide (flags_of a w) = CAccept m -> stage_out a w = Some fs1 ->
+  a_encrypt a = true -> nonempty_s (a_keyfile a) = true ->
+  fs1 (a_keyfile a) = FFile content mode -> read_key content = Some key ->
+  a_keyfile a <> a_out a -> (forall i, a_keyfile a <> (a_out a ++ "." ++ dec_of_nat i)%string) ->
+  j_fs (job tb cs a w) (a_keyfile a) = FFile content mode /\
+  exists fs2, stage_key a w fs1 = Some (fs2, Some (w_encrypt w key)).
+Proof. exact job_key_valid_untouched. Qed.
+Print Assumptions C11_job_valid_key_untouched.
